@@ -165,7 +165,8 @@ Definition fkey (n : fname) : N :=
   match n with FInfo => 0 | FInfoTmp => 1 | FQpr f => 2 + 2 * f | FQprTmp f => 3 + 2 * f end.
 (* file contents: the complete request state (with Done flag), the complete partial result of a
    fraction, or anything else (empty, cut, unparsable) *)
-Inductive content := CInfo (done : bool) | CQpr (f : N) | CTorn.
+(* CLong: a leftover temporary file that is longer than anything the protocol writes *)
+Inductive content := CInfo (done : bool) | CQpr (f : N) | CTorn | CLong.
 Inductive op :=
 | OMkdir | OCreate (n : fname) | OWrite (n : fname) (c : content) | OFsync (n : fname)
 | ORename (a b : fname) | OFsyncDir.
@@ -244,6 +245,9 @@ Fixpoint unsynced (l : list op) (acc : list fname) : list fname :=
   end.
 Definition lose (s : dir) (n : fname) : dir :=
   match nm_find (fkey n) s with Some _ => dset n CTorn s | None => s end.
+(* variant 3: k complete operations, and every temporary file left behind is longer than what a later
+   run will write into it (os.Create truncates it, so this must not matter) *)
+Definition pad_tmp (s : dir) : dir := map (fun e => if N.even (fst e) then e else (fst e, CLong)) s.
 Definition crash_state (s : dir) (ops : list op) (k : nat) (variant : N) : dir :=
   let pre := firstn k ops in
   if variant =? 1 then
@@ -252,6 +256,7 @@ Definition crash_state (s : dir) (ops : list op) (k : nat) (variant : N) : dir :
     | None => apply_ops s pre
     end
   else if variant =? 2 then fold_left lose (unsynced pre []) (apply_ops s pre)
+  else if variant =? 3 then pad_tmp (apply_ops s pre)
   else apply_ops s pre.
 
 (* what FetchSearchResult merges: every <id>*.qpr in name order; an unreadable file counts as empty *)
@@ -304,3 +309,25 @@ Definition proxy_fetch_last (naggs : nat) (size hi : N) (rev : bool) (shards : l
   | [] => None
   | a => Some (fst (last a (true, qpr_zero)), sync_search naggs size hi rev (map snd a))
   end.
+
+(* ------------------------------------------------------------------ FetchSearchResult as a snapshot *)
+(* the request state (Done) and the list of .qpr files are taken from ONE state of the directory; what
+   the worker persists while the files are being read does not enter the answer *)
+Definition fetch_result (hi : N) (rev : bool) (per : list (N * qpr)) (s : dir) : bool * qpr :=
+  (is_done s, fetch_dir hi rev per s).
+(* s1 = the state when the fetch looked the request up and listed the files, s2 = a later state *)
+Definition fetch_concurrent (hi : N) (rev : bool) (per : list (N * qpr)) (s1 s2 : dir) : bool * qpr :=
+  fetch_result hi rev per s1.
+(* a regression seen in review: Done is read a second time after the files were merged *)
+Definition fetch_two_reads (hi : N) (rev : bool) (per : list (N * qpr)) (s1 s2 : dir) : bool * qpr :=
+  (is_done s2, fetch_dir hi rev per s1).
+
+(* mustWriteFileAtomic without O_TRUNC (a regression seen in review): creating an existing temporary
+   file keeps its bytes; a payload written over a longer file leaves the old tail behind it *)
+Definition apply_op_notrunc (s : dir) (o : op) : dir :=
+  match o with
+  | OCreate n => match nm_find (fkey n) s with Some _ => s | None => dset n CTorn s end
+  | OWrite n c => match nm_find (fkey n) s with Some CLong => s | _ => dset n c s end
+  | _ => apply_op s o
+  end.
+Definition apply_ops_notrunc (s : dir) (l : list op) : dir := fold_left apply_op_notrunc l s.
